@@ -485,9 +485,15 @@ fn check_out(key: &str, input: &[u8], o: &Out, viol: &mut Vec<serde_json::Value>
 fn fuzz(seed: u64, n: u64) {
     let mut keys: Vec<String> = named_types().iter().map(|s| s.to_string()).collect();
     for id in 1..=43u32 { keys.push(id.to_string()); }
+    let pool = make_pool(seed);
+    let mut g = G { r: Rng::new(seed ^ 0x77), pool: &pool };
     for (ti, key) in keys.iter().enumerate() {
         let mut r = Rng::new(seed.wrapping_mul(7919).wrapping_add(ti as u64));
         let mut accepted: Vec<Vec<u8>> = vec![];
+        // seed the mutation pool with implementation-generated valid encodings where a generator exists
+        if let Ok(id) = key.parse::<u32>() {
+            for _ in 0..8 { if let Ok(Some(b)) = guarded(|| g.gen(id)) { accepted.push(b); } }
+        }
         let mut viol = vec![];
         let (mut na, mut nr, mut maxpeak, mut maxratio) = (0u64, 0u64, 0usize, 0f64);
         let mut distinct = std::collections::HashSet::new();
